@@ -117,16 +117,6 @@ func Lock(delta int) {
 	}
 }
 
-// Quiet runs harness-only work (canonical rendering, hashing, record building) with the race detector's handling
-// of synchronisation events switched off for this goroutine: fmt, reflect and friends exchange pooled objects
-// (sync.Pool, sync.Map), and every such exchange between two tasks is a happens-before edge that the code under
-// test did not create - it would hide a real race between the library calls before and after it.
-func Quiet(f func()) {
-	hide()
-	defer unhide()
-	f()
-}
-
 func park(t *Task) {
 	hide()
 	t.yield <- struct{}{}
